@@ -187,6 +187,37 @@ def names_in(e: ast.AST) -> Set[str]:
     return {n.id for n in ast.walk(e) if isinstance(n, ast.Name)}
 
 
+def reaching_values(fn: FunctionInfo, name: str, at: ast.AST) -> Optional[List[ast.expr]]:
+    """the right-hand sides of the plain assignments `name = v` that reach `at` (no other assignment of name in between); None when name is
+    bound in a way this does not model (loop target, augmented assignment, unpacking) or `at` is not in the CFG"""
+    cfg = cfg_of(fn)
+    target = cfg.node_of(at)
+    if target is None:
+        return None
+    defs = []
+    for n in fn_nodes(fn):
+        if isinstance(n, ast.Assign) and len(n.targets) == 1 and isinstance(n.targets[0], ast.Name) and n.targets[0].id == name:
+            defs.append(n)
+        elif isinstance(n, ast.AnnAssign) and isinstance(n.target, ast.Name) and n.target.id == name and n.value is not None:
+            defs.append(n)
+        elif isinstance(n, ast.Name) and n.id == name and isinstance(n.ctx, ast.Store):
+            par = [d for d in defs if any(x is n for x in ast.walk(d))]
+            if not par and not any(isinstance(p, (ast.Assign, ast.AnnAssign)) and any(x is n for x in ast.walk(p)) and
+                                   ((isinstance(p, ast.Assign) and len(p.targets) == 1 and p.targets[0] is n) or (isinstance(p, ast.AnnAssign) and p.target is n))
+                                   for p in fn_nodes(fn) if isinstance(p, (ast.Assign, ast.AnnAssign))):
+                return None
+    dn = [(d, cfg.node_of(d)) for d in defs]
+    if any(c is None for _d, c in dn):
+        return None
+    out = []
+    for d, c in dn:
+        others = [c2 for _d2, c2 in dn if c2 is not c]
+        succs = [s_ for s_, lab in cfg.succ[c] if lab != "exc"]
+        if any(target is s_ or target in cfg.reachable(s_, blocked=others) for s_ in succs if s_ not in others or s_ is target):
+            out.append(d.value)
+    return out
+
+
 def derives_from_param(eng, fn: FunctionInfo, e: ast.AST, pname: str) -> bool:
     """intra-procedural: does expression e (transitively through local assignments) mention parameter pname"""
     seen: Set[str] = set()
@@ -451,6 +482,65 @@ FORWARDING_EXCEPTIONS = {
 }
 
 
+# parameters that are re-bound inside the function on the unchanged tree (every one confirmed by reading; what is assigned is decided by the rule named)
+REBINDING_EXCEPTIONS = {
+    ("_keys:JWKRegistry.import_key", "key_type"): "defaults to the JWK's own kty when the caller named none (C11 R11.9 decides the dispatch)",
+    ("jws:serialize_compact", "registry"): "None -> registry built from `algorithms` (C05 R05.13)",
+    ("jws:validate_compact", "registry"): "None -> registry built from `algorithms` (C05 R05.13)",
+    ("jws:serialize_json", "registry"): "None -> registry built from `algorithms` (C05 R05.13)",
+    ("jws:deserialize_json", "registry"): "None -> registry built from `algorithms` (C05 R05.13)",
+    ("jwe:encrypt_compact", "registry"): "None -> registry built from `algorithms` / the default registry (C05 R05.13)",
+    ("jwe:decrypt_compact", "registry"): "None -> registry built from `algorithms` / the default registry (C05 R05.13)",
+    ("jwe:encrypt_json", "registry"): "None -> registry built from `algorithms` / the default registry (C05 R05.13)",
+    ("jwe:decrypt_json", "registry"): "None -> registry built from `algorithms` / the default registry (C05 R05.13)",
+    ("rfc7797.compact:serialize_compact", "registry"): "None -> RFC 7797 registry built from `algorithms` (C05 R05.13)",
+    ("rfc7797.compact:deserialize_compact", "registry"): "None -> RFC 7797 registry built from `algorithms` (C05 R05.13)",
+    ("rfc7797.json:serialize_json", "registry"): "None -> RFC 7797 registry built from `algorithms` (C05 R05.13)",
+    ("rfc7797.json:deserialize_json", "registry"): "None -> RFC 7797 registry built from `algorithms` (C05 R05.13)",
+    ("util:urlsafe_b64decode", "s"): "restores the stripped '=' padding (C19 R19.2 decides the arithmetic)",
+}
+_PURE_CONVERSIONS = {"to_bytes", "to_str"}
+
+
+def _rebinding_ok(p: str, node: ast.AST) -> bool:
+    """`p = to_bytes(p, ...)` / `p = to_str(p, ...)`: a change of representation, not of value"""
+    if not isinstance(node, ast.Assign) or len(node.targets) != 1 or not isinstance(node.targets[0], ast.Name):
+        return False
+    v = node.value
+    return (isinstance(v, ast.Call) and isinstance(v.func, ast.Name) and v.func.id in _PURE_CONVERSIONS and v.args
+            and isinstance(v.args[0], ast.Name) and v.args[0].id == p)
+
+
+def rebinding_discipline(ctx, rule: str, fn: FunctionInfo, mine: Set[str]) -> int:
+    """a parameter the property speaks about keeps the value the caller gave: inside the function it is re-bound only by a pure change of
+    representation (to_bytes / to_str of itself) or at a site of the frozen table"""
+    n = 0
+    for node in fn_nodes(fn):
+        if isinstance(node, ast.Assign):
+            tgts = [x for t_ in node.targets for x in ast.walk(t_)]
+        elif isinstance(node, (ast.AnnAssign, ast.AugAssign)):
+            tgts = list(ast.walk(node.target)) if getattr(node, "value", None) is not None else []
+        elif isinstance(node, (ast.For, ast.comprehension)):
+            tgts = list(ast.walk(node.target))
+        elif isinstance(node, ast.NamedExpr):
+            tgts = [node.target]
+        elif isinstance(node, (ast.With,)):
+            tgts = [x for it in node.items if it.optional_vars is not None for x in ast.walk(it.optional_vars)]
+        else:
+            continue
+        for x in tgts:
+            if isinstance(x, ast.Name) and isinstance(x.ctx, ast.Store) and x.id in mine:
+                p = x.id
+                n += 1
+                if (fn.short, p) in REBINDING_EXCEPTIONS:
+                    ctx.ok(rule, f"{fn.short} :: re-binding of {p}", "exception: " + REBINDING_EXCEPTIONS[(fn.short, p)])
+                    continue
+                ctx.check(_rebinding_ok(p, node), rule, fn, node, f"{fn.short} :: re-binding of {p}", f"{fn.short} replaces the value of its parameter `{p}` "
+                          f"(`{norm(node)[:70]}`): what the caller asked for is no longer what is used", f"`{p}` used as given (or to_bytes / to_str of it)",
+                          construct=f"re-binding of parameter {p} in {fn.short}")
+    return n
+
+
 def forwarding_discipline(ctx, rule: str, params: Iterable[str], minimum: int) -> None:
     """wherever a function that has a parameter named p calls a function that also has a parameter named p, it hands on p itself or a
     value derived from p (to_bytes(p), p.attr, p(...)); anything else - another variable, a constant, an omitted argument - is a
@@ -465,6 +555,7 @@ def forwarding_discipline(ctx, rule: str, params: Iterable[str], minimum: int) -
         mine = want & set(fn.params)
         if not mine:
             continue
+        rebinding_discipline(ctx, rule, fn, mine - {"self", "cls"})
         for s in eng.cg.calls_in(fn):
             if not isinstance(s.node, ast.Call):
                 continue
